@@ -262,7 +262,7 @@ Definition apply_edit (e : edit) (old ids : list aid) : list aid :=
 Definition untouched (e : edit) (old : list aid) : list aid :=
   match e with
   | ERange lo hi => firstn lo old ++ skipn hi old
-  | EAssign idxs => pick old (complement (length old) idxs)
+  | EAssign idxs => old      (* conservative: a kept member counts as a request for a repeated slot *)
   | EPick idxs => []
   | ENone => old
   end.
@@ -583,7 +583,7 @@ Definition step (v : variant) (o : op) (w : world) : world * outcome :=
       | Some (old, _), Some a =>
           (* vfinal.lattice = self.lattice happens before list.__setitem__ can raise *)
           match norm_index (length old) i with
-          | Some k => (install h [copy_src copy a] (EAssign [k]) w, Done RNone)
+          | Some k => (install h [copy_src copy a] (ERange k (S k)) w, Done RNone)
           | None => (install h [copy_src copy a] ENone w, Raised EIndex)
           end
       | Some _, None => (w, Raised EIndex)
